@@ -64,6 +64,8 @@ def parseSite (j : Json) : Except String CallSite := do
   let inSig ← sigs.toList.mapM (fun s => do
     pure (⟨← strs (← s.getObjVal? "shape"), ← s.getObjValAs? String "dtype"⟩ : TSig))
   let caps ← (← (← j.getObjVal? "caps").getArr?).toList.mapM parseCap
+  let paramNames ← strs (← j.getObjVal? "paramNames")
+  let injected ← (← (← j.getObjVal? "injected").getArr?).toList.mapM parseCap
   let cj ← j.getObjVal? "callee"
   let ckind ← cj.getObjValAs? String "kind"
   let id ← cj.getObjValAs? Nat "id"
@@ -74,7 +76,7 @@ def parseSite (j : Json) : Except String CallSite := do
     | "func" => pure (Callee.func id (optStr cj "module") (optStr cj "name"))
     | k => throw s!"bad callee kind {k}"
   let nOut ← j.getObjValAs? Nat "nOut"
-  pure { target, unique, ns, base, inSig, caps, callee, nOut }
+  pure { target, unique, ns, base, inSig, caps, paramNames, injected, callee, nOut }
 
 def renderDomain (d : List Seg) : String :=
   ".".intercalate (d.map (fun s => match s with | .s x => x | .n k => toString k))
